@@ -734,7 +734,20 @@ fn reward_step(w: &mut World, sc: &Scenario, rec: &mut Recorder, pos: &[String],
         }
         30..=49 if nrew > 0 => {
             let i = w.rng.gen_range(0..nrew) as u8;
-            let em = match w.rng.gen_range(0..6) {
+            // a rate whose day of emissions is exactly what the vault holds, or one token more: the smallest rate r with
+            // floor(86400 r / 2^64) = target (fractional in Q64.64 - the whole-token part alone would under-state the day)
+            let vault_now = w.token_amount(&w.pools[&pool].rewards[i as usize].1);
+            let tight = |target: u64| -> u128 {
+                let num = ethnum::U256::from(target) << 64u32;
+                let mut r = (num / ethnum::U256::from(86400u32)).as_u128();
+                while ((ethnum::U256::from(r) * ethnum::U256::from(86400u32)) >> 64u32).as_u128() < target as u128 {
+                    r += 1;
+                }
+                r
+            };
+            let em = match w.rng.gen_range(0..8) {
+                6 if vault_now > 0 && vault_now < u64::MAX / 2 => tight(vault_now),
+                7 if vault_now < u64::MAX / 2 => tight(vault_now + 1),
                 0 => 0,
                 1 => 1u128 << 64,
                 2 => log_uniform(w, 100, 126),
